@@ -28,7 +28,8 @@ SHAPES = {
     "ungrouped3": ["name/d/a", "name/x", "name/d/b"],   # a v1 file list that is not grouped by directory      # dot files and dot directories
     "dir1": ["name/a"],                             # a directory holding exactly one file
     "case2": ["name/README", "name/readme"],
-    "mixedcase2": ["name/README", "name/alpha"],   # byte order and case-folded order differ       # names that collide when case is folded
+    "mixedcase2": ["name/README", "name/alpha"],
+    "around3": ["name/a", "name/d/b", "name/z"],     # a sub-directory with files sorting before and after it   # byte order and case-folded order differ       # names that collide when case is folded
     "selfname": ["name/name", "name/z"],          # a file called like the torrent inside the payload root
     "selfdir": ["name/name/x", "name/y"],          # a directory called like the torrent inside the payload root
 }
